@@ -87,6 +87,7 @@ class Engine(object):
         self.cur_contract = None
         self.string_consts = set()
         self.inputs = {}
+        self._istr_seen = set()
 
     # ------------------------------------------------------------------ bookkeeping
     def assume(self, st, fact):
@@ -275,11 +276,12 @@ class Engine(object):
         return None
 
     def find_special(self, v, name):
-        """Resolve a special method (e.g. __eq__) statically for value v, or None."""
+        """Resolve a special method (e.g. __eq__) statically for value v, or None.
+        Returns a function, None, or a list of (function-or-None, [classes]) for dynamic dispatch."""
         classes = self.static_classes(v)
         if not classes:
             return None
-        impls = set()
+        impls = {}
         for c in classes:
             for d in UNIVERSE.subclasses(c):
                 f = None
@@ -289,12 +291,29 @@ class Engine(object):
                     if name in vars(k):
                         f = vars(k)[name]
                         break
-                impls.add(f)
+                impls.setdefault(f, []).append(d)
         if len(impls) == 1:
-            return impls.pop()
-        if None in impls and len(impls) == 1:
-            return None
-        raise EngineError('ambiguous special method %s on %r' % (name, classes))
+            return next(iter(impls))
+        return list(impls.items())
+
+    def call_special(self, st, v, name, args, default):
+        """Call special method `name` on v (dispatching on the dynamic class if necessary);
+        `default(state)` computes the result when the class does not define it."""
+        f = self.find_special(v, name)
+        if f is None:
+            return default(st)
+        if not isinstance(f, list):
+            return self.call_function(st, f, [v] + args, {}, inline=True)
+        items = f
+
+        def rec(s, i):
+            fn, ds = items[i]
+            run = (lambda s2: self.call_function(s2, fn, [v] + args, {}, inline=True)) if fn is not None else default
+            if i == len(items) - 1:
+                return run(s)
+            c = Or(*[cls_of(Val.r(v.t)) == UNIVERSE.cid(d) for d in ds])
+            return self.branch(s, c, run, lambda s2: rec(s2, i + 1))
+        return rec(st, 0)
 
     def py_eq(self, st, a, b):
         """python a == b ; returns z3 Bool (may execute an inlined __eq__)."""
@@ -312,15 +331,10 @@ class Engine(object):
             return z3.BoolVal(False)
         if isinstance(a, (PyTuple, GList)) or isinstance(b, (PyTuple, GList)):
             raise EngineError('comparison of aggregate with scalar')
-        f = self.find_special(a, '__eq__')
-        if f is None:
-            g = self.find_special(b, '__eq__')
-            if g is not None:
-                a, b, f = b, a, g
-        if f is not None:
-            res = self.call_function(st, f, [a, b], {}, inline=True)
-            return self.truthy(st, res)
-        return a.t == b.t
+        if self.find_special(a, '__eq__') is None and self.find_special(b, '__eq__') is not None:
+            a, b = b, a
+        res = self.call_special(st, a, '__eq__', [b], lambda s: V(mkB(a.t == b.t), parse_spec('bool')))
+        return self.truthy(st, res)
 
     def as_v(self, st, x):
         """Force a python-side aggregate into a heap value."""
